@@ -169,6 +169,11 @@ theorem reordered_handover_loses_wakeup :
         ∧ lost ["wait", "stoptest", "drain", "clear"] s = true) := by
   refine ⟨by decide +kernel, by decide +kernel, ⟨_, rfl, by decide +kernel⟩, ⟨_, rfl, by decide +kernel⟩⟩
 
+/-- **The dispatch queue is unbounded** (generated fact: `ProtocolDispatcher.__init__` constructs it as `queue.Queue()`), as `Model.Rx` /
+`OnData` assume: `queue_block` never blocks.  With a bound its blocking `put` would stop the receiver thread on a full queue — the thread
+that also writes the send queue, for which the dispatcher's answering handler waits: both stop and the rest of a burst is never delivered. -/
+theorem dispatch_queue_unbounded : Gen.RxOrder.dispatchQueueCtor = "queue.Queue()" := by decide
+
 /-- **`ByteQueue` is only changed under its lock, and `pop(size)` removes exactly `size` bytes** (generated facts): `append`, `pop`,
 `pop_byte`, `clear` touch `self._buffer` only inside `with self._buffer_lock:`, and `pop` is `data = buffer[:size]; del buffer[:size];
 return data` under that lock — the `buf.take n` / `buf.drop n` of `Model.Rx.extractF`, whatever the connection's thread appends meanwhile. -/
